@@ -5,6 +5,7 @@ use crate::engine::*;
 
 pub mod c01;
 pub mod c04;
+pub mod c05;
 pub mod c07;
 pub mod c08;
 pub mod c09;
@@ -24,6 +25,7 @@ pub struct Prop {
 pub const PROPS: &[Prop] = &[
     Prop { id: "C01", run: c01::run, eval: c01::eval },
     Prop { id: "C04", run: c04::run, eval: c04::eval },
+    Prop { id: "C05", run: c05::run, eval: c05::eval },
     Prop { id: "C07", run: c07::run, eval: c07::eval },
     Prop { id: "C08", run: c08::run, eval: c08::eval },
     Prop { id: "C09", run: c09::run, eval: c09::eval },
